@@ -26,7 +26,7 @@ from engine.forksym import Engine, SInt, conc, cur, term_of
 
 PID = "C17"
 OPS = ["assign", "delete", "append", "setlist0", "setlist1", "setlist2", "poplist", "pop", "pop_default", "popitem",
-       "setdefault", "update1", "update2", "update_multi", "clear", "views"]
+       "setdefault", "update1", "update2", "update_multi", "clear", "views", "none_then_assign", "setdefault_nodefault_then_assign"]
 
 META = {
     "functions": lambda: [MultiMapping.__init__, MultiMapping.__getitem__, MultiMapping.__iter__, MultiMapping.__len__, MultiMapping.getlist,
@@ -85,7 +85,9 @@ def m_assign(pairs, k, v):
 
 
 def same(e: Engine, a, b) -> bool:
-    """solver-decided equality of two int-ish values on the path"""
+    """solver-decided equality of two int-ish values on the path (None -- a legal stored value -- only equals None)"""
+    if a is None or b is None:
+        return a is None and b is None
     ta, tb = term_of(a), term_of(b)
     if z3.eq(ta, tb):
         return True
@@ -143,7 +145,8 @@ def check_views(e: Engine, m, pairs, probe):
             raise Fail("invariant-dict-value")
     # equality with an independently built mapping of the same pairs, in another order
     other = type(m)(list(reversed(pairs)))
-    if not (m == other):
+    # (== sorts the pair lists, so it needs mutually orderable values: not asked of a mapping that holds None next to other values)
+    if not any(v_ is None for _, v_ in pairs) and not (m == other):
         raise Fail("eq-same-pairs")
     for cls, src in ((QueryParams, None), (FormData, None), (QueryParams, m), (FormData, m), (MultiMapping, m), (MutableMultiMapping, m)):
         o = cls(list(pairs) if src is None else src)  # from the pair list and (cross-class) from the mapping itself
@@ -164,6 +167,18 @@ def apply(op: str, m: MutableMultiMapping, pairs, k, v, w, k2):
     if op == "append":
         m.append(k, v)
         return pairs + [(k, v)], "ok"
+    if op in ("none_then_assign", "setdefault_nodefault_then_assign"):
+        # None is an ordinary value (setdefault(k) stores it): a key whose current value is None is still a present key
+        if op == "none_then_assign":
+            m.append(k, None)
+            pairs = pairs + [(k, None)]
+        else:
+            had = m_has(pairs, k)
+            m.setdefault(k)
+            if not had:
+                pairs = pairs + [(k, None)]
+        m[k2] = v
+        return m_assign(pairs, k2, v), "ok"
     if op == "delete":
         present = m_has(pairs, k)
         try:
